@@ -40,6 +40,7 @@ def run(an: Analysis, rep):
     shx = SharedRules(rep, "R13.X", "jump operands are reassembled from all their EXTENDED_ARG prefixes (shared with C02's R02.6/R02.7): a target beyond 65535 still starts a block")
     rep.run(c02.r026, an, shx)
     rep.run(c02.r027, an, shx)
+    rep.run(c02.r028, an, shx)
     rep.stats.update(an.stats([an.interp("from_code")[0]]))
     rep.assumptions += ["compiler output never jumps into the middle of an EXTENDED_ARG sequence (CPython's assembler targets the first unit)"]
 
